@@ -3,6 +3,7 @@ mod bfam;
 mod bprops;
 mod engine_b;
 mod c09;
+mod c10;
 mod front;
 mod stats;
 
@@ -17,6 +18,8 @@ fn main() {
         .and_then(|i| args.get(i + 1).cloned());
     let code = match id {
         "C09" => c09::run(replay),
+        "C10" => c10::run("C10", replay),
+        "C14" => c10::run("C14", replay),
         "C01" => bprops::run("C01", replay),
         "C02" => bprops::run("C02", replay),
         "C03" => bprops::run("C03", replay),
